@@ -1,6 +1,8 @@
 import Pocket.Model.ParseFilter
 import Pocket.Model.HllFloat
 import Pocket.Model.Kind
+import Pocket.Model.Store
+import Pocket.Model.Verify
 /-
 pocket-model: answers the line protocol of DESIGN.md Appendix B from the Lean model.
 The definitions executed here are the ones the theorems in Pocket/Thm are about.
@@ -248,20 +250,133 @@ def handleTypes (cmd : String) (a : List String) : Option String :=
     some s!"ok {hllEstimate r}"
   | _, _ => none
 
-partial def loop (h : IO.FS.Stream) (out : IO.FS.Stream) : IO Unit := do
+def screenOf (mode : String) : EventRec → Screen := fun e =>
+  match mode with
+  | "p" => match e.id.getLastD 0 % 3 with
+    | 0 => .match
+    | 1 => .mismatch
+    | _ => .redacted
+  | "x" => .mismatch
+  | "r" => .redacted
+  | _ => .match
+
+def insertRow (rows : List (Bytes × Bytes)) (k v : Bytes) : List (Bytes × Bytes) :=
+  match rows with
+  | [] => [(k, v)]
+  | (k', v') :: rest =>
+    if k' == k then (k, v) :: rest
+    else if bytesLt k k' then (k, v) :: (k', v') :: rest
+    else (k', v') :: insertRow rest k v
+
+def handleStore (s : Store) (cmd : String) (a : List String) : Option (Store × String) :=
+  match cmd, a with
+  | "NEW", _ :: rest =>
+    let tables := match rest with
+      | t :: _ => if t == "-" then [] else t.splitOn ","
+      | [] => []
+    some ({ db := { extra := tables.map fun t => (t, []) } }, "ok debug=1 end=8")
+  | "OPN", _ => some (s, "ok")
+  | "CLS", _ => some (s, "ok")
+  | "RMD", _ => some ({}, "ok")
+  | "RBD", _ => some (rebuild s, "ok bak=11")
+  | "STO", a => do
+    let e ← buildEvent a
+    if tagsSize e.tags > 65535 then none else
+    let (r, s') := storeEvent s e
+    let txt := match r with
+      | .ok off => s!"ok {off}"
+      | .duplicate => "dup"
+      | .deleted => "deleted"
+      | .replaced => "replaced"
+      | .invalidDelete => "invalid"
+      | .other => "err"
+    some (s', txt)
+  | "REM", [id] => do some (removeEvent s (← unhex id), "ok")
+  | "VAN", [pk] => do some (vanish s (← unhex pk), "ok")
+  | "FND", a => do
+    let f ← buildFilter (a.take 7)
+    match a.drop 7 with
+    | allow :: lim :: secs :: scr :: rest =>
+      let now := match rest with
+        | n :: _ => (n.drop 4).toString.toNat?.getD 0
+        | [] => 0
+      match findEvents s.db.live f (allow == "1") (← lim.toNat?) (← secs.toNat?) now (screenOf scr) with
+      | .ok evs red => some (s, s!"ok {joinOr (evs.map fun x => toHex x.e.id)} r={if red then 1 else 0}")
+      | .scraper => some (s, "scraper")
+    | _ => none
+  | "GID", [id] => do
+    match getById s (← unhex id) with
+    | some e => some (s, s!"some {toHex (encodeEvent e)}")
+    | none => some (s, "none")
+  | "HAS", [id] => do some (s, if (findById s.db.live (← unhex id)).isSome then "1" else "0")
+  | "DEL", [id] => do some (s, if s.db.delIds.contains (← unhex id) then "1" else "0")
+  | "OFF", [off] => do
+    let off ← off.toNat?
+    if off ≥ s.end then some (s, "err") else
+    match getByOffset s off with
+    | some e => some (s, s!"some {toHex (encodeEvent e)}")
+    | none => some (s, "unknown")
+  | "NAD", [kind, pk, d] => do
+    match delAddrGet s.db.delAddrs (← kind.toNat?, ← unhex pk, ← unhex d) with
+    | some t => some (s, s!"some {t}")
+    | none => some (s, "none")
+  | "FRP", [pk, kind] => do
+    match findReplaceable s.db.live (← unhex pk) (← kind.toNat?) with
+    | .ok (some x) => some (s, s!"some {toHex x.e.id}")
+    | .ok none => some (s, "none")
+    | _ => some (s, "wrongkind")
+  | "FPR", [kind, pk, d] => do
+    match findParam s.db.live (← kind.toNat?) (← unhex pk) (← unhex d) with
+    | .ok (some x) => some (s, s!"some {toHex x.e.id}")
+    | .ok none => some (s, "none")
+    | _ => some (s, "wrongkind")
+  | "STA", _ =>
+    let n := s.db.live.length
+    let tg := tagEntryCount s.db.live
+    let custom := joinOr (s.db.extra.map fun (nm, rows) => s!"{nm}:{rows.length}")
+    some (s, s!"end={s.end} general={9 + s.db.extra.length} i={n} ci={n} tc={tg} ac={n} akc={n} atc={tg} ktc={tg} del={s.db.delIds.length} naddr={s.db.delAddrs.length} custom={custom}")
+  | "XPT", [name, k, v] => do
+    let k ← unhex k
+    let v ← unhex v
+    if s.db.extra.any (·.1 == name) then
+      if k.isEmpty || k.length > 511 then some (s, "err") else
+      some ({ s with db := { s.db with extra := s.db.extra.map fun (nm, rows) =>
+        if nm == name then (nm, insertRow rows k v) else (nm, rows) } }, "ok")
+    else some (s, "notable")
+  | "XDL", [name, k] => do
+    let k ← unhex k
+    if s.db.extra.any (·.1 == name) then
+      some ({ s with db := { s.db with extra := s.db.extra.map fun (nm, rows) =>
+        if nm == name then (nm, rows.filter (·.1 != k)) else (nm, rows) } }, "ok")
+    else some (s, "notable")
+  | "XDP", [name] =>
+    match s.db.extra.find? (·.1 == name) with
+    | some (_, rows) => some (s, s!"rows {joinOr (rows.map fun (k, v) => s!"{toHex k}={toHex v}")}")
+    | none => some (s, "notable")
+  | _, _ => none
+
+partial def loop (h : IO.FS.Stream) (out : IO.FS.Stream) (s : Store) : IO Unit := do
   let line ← h.getLine
   if line.isEmpty then return ()
   let line := line.trimAscii.toString
+  let mut s := s
   if line.isEmpty || line.startsWith "#" then
     out.putStrLn "#"
   else
     let toks := line.splitOn " "
-    let reply := match toks with
-      | cmd :: a => (handleTypes cmd a).getD "bad-request"
-      | [] => "bad-request"
-    out.putStrLn reply
+    match toks with
+    | cmd :: a =>
+      match handleTypes cmd a with
+      | some r => out.putStrLn r
+      | none =>
+        match handleStore s cmd a with
+        | some (s', r) =>
+          s := s'
+          out.putStrLn r
+        | none => out.putStrLn "bad-request"
+    | [] => out.putStrLn "bad-request"
   out.flush
-  loop h out
+  loop h out s
 
 def main : IO Unit := do
-  loop (← IO.getStdin) (← IO.getStdout)
+  loop (← IO.getStdin) (← IO.getStdout) {}
